@@ -346,6 +346,7 @@ func fieldByID(id string) (fieldDef, bool) {
 
 func (lw *liveWorld) placeholders(depth int, e string) string {
 	root := absOf(lw.w.stackFor(depth)[0])
+	e = strings.ReplaceAll(e, caseVariant(root), "@CASE@")
 	e = strings.ReplaceAll(e, root+"-evil", "@OUT@")
 	e = strings.ReplaceAll(e, root, "@ROOT@")
 	return e
@@ -353,6 +354,7 @@ func (lw *liveWorld) placeholders(depth int, e string) string {
 
 func (lw *liveWorld) expand(depth int, e string) string {
 	root := absOf(lw.w.stackFor(depth)[0])
+	e = strings.ReplaceAll(e, "@CASE@", caseVariant(root))
 	e = strings.ReplaceAll(e, "@OUT@", root+"-evil")
 	e = strings.ReplaceAll(e, "@ROOT@", root)
 	return e
@@ -569,7 +571,8 @@ func pathFnCases(r *Run, rng *Rng, tier string) {
 		a, b := adversarial[rng.Intn(len(adversarial))], adversarial[rng.Intn(len(adversarial))]
 		r.AddCase(fmt.Sprintf("(K_join %s %s %s)", coqStr(a), coqStr(b), coqStr(filepath.Join(a, b))), map[string]string{"kind": "join", "a": a, "b": b}, true)
 	}
-	dirs := []string{"/", "/root", "/root-evil", "/root/x", "/roo", "/root/x/y", "/r", "/rootx", "/root-", "/a/b", "/a", "/a/bc", "/a/b/c"}
+	dirs := []string{"/", "/root", "/root-evil", "/root/x", "/roo", "/root/x/y", "/r", "/rootx", "/root-", "/a/b", "/a", "/a/bc", "/a/b/c",
+		"/Root", "/ROOT/x", "/root/X", "/A/b", "/a/B/c"} // letter case: these file systems are case-sensitive
 	for _, d := range dirs {
 		for _, p := range dirs {
 			b := filesys.ConfirmedDir(d).HasPrefix(filesys.ConfirmedDir(p))
@@ -1354,7 +1357,7 @@ func runC05(r *Run, rng *Rng, tier string) error {
 	rng = rng.Fork()
 	r.Meta.Rule = "path functions: every string over {/ . a} up to length 6 (8 thorough) + adversarial spellings; file systems: random trees (names qa,qb,qc,qrt,qrt-evil,qk.yaml,qx; " +
 		"links relative/absolute/dangling/looping/with dots and trailing slashes) in memory and on disk; loader: structured world (3 stacked roots, sibling base, outside directory with canary files, " +
-		"links in/out) x every path expression of <=3 (model) / <=4 (reference) atoms (<=6 thorough) over {., .., dir, file, link-in-dir, link-out-dir, link-in-file, link-out-file, /abs-root, /abs-outside} x depth 1..3 x {Load, New}; " +
+		"links in/out) x every path expression of <=3 (model) / <=4 (reference) atoms (<=6 thorough) over {., .., dir, file, link-in-dir, link-out-dir, link-in-file, link-out-file, /abs-root, /abs-outside, /abs-root-in-other-letter-case} + relative paths to that sibling x depth 1..3 x {Load, New}; " +
 		"builds: the same expressions x 21 path-bearing fields through krusty.Run. non-trivial = the operation succeeded"
 	modelLen, refLen := 3, 4
 	nWorlds, nQueries := 12, 60
